@@ -547,6 +547,9 @@ func (e *engine) runC11() {
 		}
 	}
 
+	e.runC11Extra(keys)
+	e.runC11History(keys)
+
 	// malformed protobuf wrappers
 	nm := 300 * e.a.Scale
 	for i := 0; i < nm; i++ {
